@@ -46,6 +46,63 @@ def import_raw(floats, vars_, proof):
     return {'labels': [p.labels[k] for k in keys], 'steps': list(p.applied_lemmas)}
 
 
+def replay(req):
+    """run the REAL translate.exec_proof on a database and record the term on top of the stack after every step of
+    applied_lemmas.  No code is patched: the list exec_proof iterates is replaced (in this process) by a list whose
+    iterator takes a snapshot between two steps."""
+    from proof_generation.claim import Claim
+    from proof_generation.interpreter import ExecutionPhase
+    from proof_generation.metamath.translate import exec_proof
+    from proof_generation.proof import ProofExp
+    from proof_generation.stateful_interpreter import StatefulInterpreter
+
+    conv = MetamathConverter(parse_database(req['src']))
+    target = req['target']
+    lemma = conv.get_lemma_by_name(target)
+    proof = lemma.proof
+    steps = list(proof.applied_lemmas)
+    axioms = [conv.get_axiom_by_name(a).pattern for a in conv.exported_axioms]
+    claims = [lemma.pattern]
+    terms = []
+
+    def tid(x):
+        for i, y in enumerate(terms):
+            if type(y) is type(x) and y == x:
+                return i
+        terms.append(x)
+        return len(terms) - 1
+
+    interp = StatefulInterpreter(ExecutionPhase.Gamma, [Claim(c) for c in claims])
+    tops = []
+
+    class Rec(list):
+        def __iter__(self):
+            for i, x in enumerate(list.__iter__(self)):
+                if i > 0:
+                    tops.append(tid(interp.stack[-1]) if interp.stack else -1)
+                yield x
+            tops.append(tid(interp.stack[-1]) if interp.stack else -1)
+
+    class Skeleton(ProofExp):
+        def __init__(self):
+            super().__init__(axioms=axioms, claims=claims)
+
+        def execute_proofs_phase(self, interpreter):
+            exec_proof(conv, target, self, interpreter)
+
+    object.__setattr__(proof, 'applied_lemmas', Rec(steps))
+    err = None
+    try:
+        Skeleton().execute_full(interp)
+    except Exception as e:  # noqa: BLE001
+        err = type(e).__name__ + ': ' + str(e)[:120]
+    finally:
+        object.__setattr__(proof, 'applied_lemmas', steps)
+    keys = list(proof.labels.keys())
+    return {'steps': steps, 'labels': [proof.labels[k] for k in keys], 'tops': tops if steps else [], 'err': err,
+            'terms': [str(t)[:60] for t in terms[:40]]}
+
+
 def handle(req):
     k = req['k']
     if k == 'num':
@@ -73,6 +130,8 @@ def handle(req):
             out[name] = {'labels': [p.labels[k] for k in keys], 'keys_ok': keys == list(range(1, len(keys) + 1)),
                          'steps': list(p.applied_lemmas), 'field': fields.get(name)}
         return {'lemmas': out}
+    if k == 'replay':
+        return replay(req)
     if k == 'isspace':
         # which characters separate tokens for the REAL lexer: "$c a<ch>b $." has two constants iff <ch> separates
         lex = []
